@@ -30,7 +30,10 @@ MANIFEST = dict(
          "whatever minid the caller supplies; sizes checked; bin edges from the same rmin, rmax, nbin; (5) vendored code, necessary conditions only: a method that "
          "handles a stored node hands the node's HTM id (not its position in the node array) to the result lists and searches all four stored children; every edge "
          "test `(a x b) . v <rel> t` of the id descent (idByPoint, isInside) accepts the products within rounding of 0 (t at least one unit roundoff on the rejected "
-         "side), so that a position on an edge shared by sibling triangles is accepted by one of them at every level.",
+         "side), so that a position on an edge shared by sibling triangles is accepted by one of them at every level; the edge/circle quadratic (eSolve) answers 'no crossing' on the "
+         "ground of its discriminant only where it is negative; (6) pair counting searches, for point i1, the triangle lists of an intersection of the same iteration and leaves no loop over "
+         "the candidate triangles early on a condition on the candidate in hand (full list followed by partial list: not ascending); python hands ra1, dec1, scale (and ra2, dec2, ids) "
+         "to the extension through one and the same chain of element selections / reorderings.",
     note="Not decided (the reason the property was first declared not applicable): ids are in the valid range and hierarchical, the circle "
          "lists cover every position inside the circle, fully-inside triangles contain only inside positions, pair counts equal brute force "
          "for the vendored SpatialIndex/SpatialDomain code. Trusted: clang AST, SWIG naming convention, LP64.",
@@ -852,15 +855,29 @@ def _aligned_lists_rule(chk, repo, fi, nparams):
     for hid in (None, S("htmid2")):
         se = symx.SymEval(repo, opaque=("esutil.stat.util.histogram", H + "HTM.lookup_id", H + "log_bins"), opaque_tests=False, self_calls_as_terms=True)
         tag = "scale array, htmid2 %s" % ("given" if hid is not None else "None")
-        try:
-            r = se.run(fi, {k: S(k) for k in ("self", "rmin", "rmax", "nbin", "ra1", "dec1", "ra2", "dec2")},
-                       {"scale": S("scale"), "htmid2": hid, "htmrev2": None, "minid": None, "maxid": None, "getbins": False, "verbose": False})
-        except Exception as e:
-            unrec.append("%s: %s" % (tag, str(e)[:100]))
+        r, why = None, ""
+        for sc in (S("scale"), None):
+            try:
+                r = se.run(fi, {k: S(k) for k in ("self", "rmin", "rmax", "nbin", "ra1", "dec1", "ra2", "dec2")},
+                           {"scale": sc, "htmid2": hid, "htmrev2": None, "minid": None, "maxid": None, "getbins": False, "verbose": False})
+            except Exception as e:
+                r, why = None, str(e)[:100]
+            if isinstance(r, sp.Basic) and getattr(r.func, "__name__", "") == "SELF_cbincount" and len(r.args) == nparams == 11:
+                break
+            r, why = None, why or "result %s" % str(r)[:100]
+            # the scale handling was not evaluated: if, by the syntax of the method, `scale` is never subscripted, sorted or taken from
+            # (only converted and measured), its element order is the caller's and the other arrays are still compared
+            touched = [x for x in ast.walk(fi.node) if (isinstance(x, ast.Subscript) and isinstance(x.value, ast.Name) and x.value.id == "scale")
+                       or (isinstance(x, ast.Call) and call_name(x) in ("take", "sort", "argsort", "compress", "flip", "roll", "choose", "unique")
+                           and any(isinstance(y, ast.Name) and y.id == "scale" for a_ in list(x.args) + [x.func] for y in ast.walk(a_)))]
+            if touched:
+                break
+            se = symx.SymEval(repo, opaque=("esutil.stat.util.histogram", H + "HTM.lookup_id", H + "log_bins"), opaque_tests=False, self_calls_as_terms=True)
+        if r is None:
+            unrec.append("%s: %s" % (tag, why))
             continue
-        if not (isinstance(r, sp.Basic) and getattr(r.func, "__name__", "") == "SELF_cbincount" and len(r.args) == nparams == 11):
-            unrec.append("%s: result %s" % (tag, str(r)[:100]))
-            continue
+        if sc is None:
+            r = r.func(*[S("scale") if i_ == 9 else a_ for i_, a_ in enumerate(r.args)])
         seen += 1
         strip_int = lambda t: t.replace(lambda x: x.func == INT, lambda x: x.args[0])
         groups = [[("ra1", r.args[3]), ("dec1", r.args[4]), ("scale", r.args[9])], [("ra2", r.args[5]), ("dec2", r.args[6])]]
